@@ -138,13 +138,14 @@ def runs_c11(tier):
 
 def runs_c12(tier):
     def s(g, tier):
-        S.suite_mul(g, n(tier, 150, 2000), big=True)
-        S.suite_echelon(g, n(tier, 120, 1500), big=True)
-        S.suite_ple(g, n(tier, 120, 1500), big=True)
-        S.suite_trsm(g, n(tier, 60, 800), big=True)
-        S.suite_inverse(g, n(tier, 60, 800), big=True)
-        S.suite_solve(g, n(tier, 100, 1200), big=True)
-        S.suite_ple_recursive(g, n(tier, 14, 150))      # block-recursive PLE regime of the small-cache configurations
+        # (quick: the volume per configuration is kept small -- eight configurations run the same cases)
+        S.suite_mul(g, n(tier, 80, 2000), big=True)
+        S.suite_echelon(g, n(tier, 60, 1500), big=True)
+        S.suite_ple(g, n(tier, 60, 1500), big=True)
+        S.suite_trsm(g, n(tier, 40, 800), big=True)
+        S.suite_inverse(g, n(tier, 30, 800), big=True)
+        S.suite_solve(g, n(tier, 50, 1200), big=True)
+        S.suite_ple_recursive(g, n(tier, 8, 150))       # block-recursive PLE regime of the small-cache configurations
     # a last-level cache of 768 MiB (large server parts): cache-size arithmetic beyond 2^29 bytes
     HUGE = dict(DEF, l2=2097152, l3=805306368)
     cfgs = [DEF, SC, SC_NOSSE, MID, B.thread_safe(SC), dict(SC, l1=4096, l2=262144, l3=1048576), HUGE, ODD]
